@@ -381,12 +381,26 @@ class Workdir:
                 for f in files:
                     try:
                         cd = pickle.loads(gzip.decompress(f.read_bytes()))
-                        keys = sorted(cd.pages)
+
+                        def damaged(raw):
+                            return {"truncate": raw[: len(raw) // 2], "garbage": b"\x00junk", "empty": b"", "tail": raw[:-1] + b"X",
+                                    "wrongtype": pickle.dumps(["not", "what", "was", "stored"])}[op["mode"]]
+                        where = op.get("where", "pages")
+                        if where == "yaml":
+                            # the pickled GizaFile of single YAML files
+                            slots = [(cat, fid) for cat in sorted(cd.yaml_nodes) for fid in sorted(cd.yaml_nodes[cat])]
+                            for i, (cat, fid) in enumerate(slots):
+                                if op["which"] == "all" or i == op["which"] % max(1, len(slots)):
+                                    h, raw = cd.yaml_nodes[cat][fid]
+                                    cd.yaml_nodes[cat][fid] = (h, damaged(raw))
+                        elif where == "orphans":
+                            for i, k in enumerate(sorted(cd.orphan_diagnostics)):
+                                if op["which"] == "all" or i == op["which"] % max(1, len(cd.orphan_diagnostics)):
+                                    cd.orphan_diagnostics[k] = damaged(cd.orphan_diagnostics[k])
+                        keys = sorted(cd.pages) if where == "pages" else []
                         for i, k in enumerate(keys):
                             if op["which"] == "all" or i == op["which"] % max(1, len(keys)):
-                                raw = cd.pages[k]
-                                cd.pages[k] = {"truncate": raw[: len(raw) // 2], "garbage": b"\x00junk", "empty": b"",
-                                               "tail": raw[:-1] + b"X"}[op["mode"]]
+                                cd.pages[k] = damaged(cd.pages[k])
                         f.write_bytes(gzip.compress(pickle.dumps(cd, protocol=5), mtime=0))
                     except Exception:
                         pass
@@ -688,7 +702,8 @@ class C11(core.PropertyCheck):
             how = rng.choice(["truncate", "overwrite", "flipbit", "garbage", "rename", "rename", "entry", "entry"])
             op = {"op": "cache", "how": how}
             if how == "entry":
-                op.update(which=rng.choice(["all", 0, 1, 2, 3]), mode=rng.choice(["truncate", "garbage", "empty", "tail"]))
+                op.update(which=rng.choice(["all", 0, 1, 2, 3]), mode=rng.choice(["truncate", "garbage", "empty", "tail", "wrongtype"]),
+                          where=rng.choice(["pages", "pages", "yaml", "yaml", "orphans"]))
             if how == "truncate":
                 op["at"] = rng.choice([0.0, 0.01, 0.5, 0.9, 0.99, rng.random()])
             elif how == "overwrite":
